@@ -43,7 +43,7 @@ Definition scope_it (s : st) : bool :=
 (* pushScope: the opening line is that of the outermost user-macro call, else of the current block (which must exist) *)
 Definition mk_scope (m tag id : str) (req : bool) (s : st) : scope * st :=
   match cloc s with
-  | Some (l, _) => (mkScope m tag id req l true, s)
+  | Some (l, _, _) => (mkScope m tag id req l true, s)
   | None => (mkScope m tag id req (line s) false, if has_cur s then s else set_panic "pushScope: no current block" s)
   end.
 Definition push_block (m : string) (tag id : str) (req : bool) (s : st) : st :=
